@@ -16,8 +16,14 @@ package scanner
 //@ ghost out_rev (Array Int (_ BitVec 64))
 //@ ghost out_limit Int
 
+// coupled(x): if receiver x is the in-memory receiver, its result slice is the ghost output. The
+// interface contract assumes that append/reset keep the coupling; it is what the proved contracts
+// of (*commonResultReceiver).append/reset say ([one-more], [prefix-kept], [last], [empty]).
+//@ pred coupled_common(c) = c != nil && len(c.result) == out_n && forall(i, 0 <= i && i < len(c.result), c.result[i] != nil && c.result[i].Key == out_key[i] && c.result[i].Value == out_val[i] && c.result[i].Revision == out_rev[i])
+//@ pred coupled(x) = typeis(x, "*scanner.commonResultReceiver") ==> coupled_common(asptr(x, "*scanner.commonResultReceiver"))
 //@ func resultReceiver.append(key, value, revision)
 //@   assumed
+//@   ensures [coupling-kept] old(coupled(self)) ==> coupled(self)
 //@   ensures [recorded] out_n == old(out_n)+1 && out_key == upd(old(out_key), old(out_n), key) && out_val == upd(old(out_val), old(out_n), value) && out_rev == upd(old(out_rev), old(out_n), revision)
 //@   modifies ghost.out_n ghost.out_key ghost.out_val ghost.out_rev ghost.chan_len ghost.chan_log commonResultReceiver.result streamResultReceiver.batch []*proto.KeyValue proto.KeyValue.Key proto.KeyValue.Value proto.KeyValue.Revision
 //@ func resultReceiver.flush()
@@ -29,6 +35,8 @@ package scanner
 //@ func resultReceiver.reset()
 //@   assumed
 //@   ensures [emptied] out_n == 0
+//@   ensures [coupling-established] coupled(self)
+//@   ensures [limit-is-the-receivers] typeis(self, "*scanner.commonResultReceiver") ==> out_limit == asptr(self, "*scanner.commonResultReceiver").limit
 //@   modifies ghost.out_n commonResultReceiver.result streamResultReceiver.batch
 //@ func resultReceiver.needMore() (result)
 //@   assumed
@@ -51,6 +59,9 @@ package scanner
 //@   requires [decodable-borders] forall(k, 0 <= k && k < len(ps), len(ps[k].End) >= 13)
 //@   modifies []storage.Partition
 //@   ensures [same-count] len(ret) == len(ps)
+// trusted, not proved: the engine's partitions are ascending and chained, and moving an end border
+// down to its key's index record is monotone (order lemmas of C10), so no piece is inverted
+//@   assume_ensures [pieces-stay-ascending] forall(k, 0 <= k && k < len(ret), bytes_cmp(ret[k].Start, ret[k].End) <= 0)
 //@   ensures [chained] forall(k, 1 <= k && k < len(ret), ret[k].Start == ret[k-1].End)
 //@   ensures [inner-borders-at-index-records] forall(k, 0 <= k && k < len(ret)-1, is_internal_key(ret[k].End) ==> key_rev(ret[k].End) == 0)
 //@   loop 0 invariant [range] 0 <= i && i <= len(ps) && len(ps) == old(len(ps)) && ps.obj == old(ps.obj) && ps.off == old(ps.off)
@@ -185,13 +196,17 @@ package scanner
 //@   modifies inferred:(*worker).updateSkippedRawKey
 //@   ensures [a-failed-delete-that-is-not-a-lost-race-skips-the-key] ite(err_is(err, storage.ErrCASFailed), w.lastCompactFailedRawKey == old(w.lastCompactFailedRawKey), w.lastCompactFailedRawKey == rawKey)
 
+//@ pred skipped(w, rawKey) = len(w.lastCompactFailedRawKey) > 0 && bytes_eq(w.lastCompactFailedRawKey, rawKey)
+// (a) additionally asks for the order "older versions first, marker last": when the remembered previous
+// record is an older version of the same key, its delete must have been issued just before (and not
+// have failed, or else the key is being skipped and this call does nothing)
 //@ func (*worker).compactKey(key, rawKey, rev) (err)
 //@   props C17 C07
 //@   requires w != nil && w.store != nil && w.metricCli != nil
-//@   requires@C07,C17 [deletes-only-dead-or-superseded-versions] (w.compact && is_rec_kr(it_pos-1, rawKey, rev) && rev != 0 && rev <= w.revision && dead(it_pos-1)) || (w.compact && is_rec_kr(lastkept(it_pos-1), rawKey, rev) && rev != 0 && rec_uk[lastkept(it_pos-1)] == rec_uk[it_pos-1] && rec_rev[lastkept(it_pos-1)] < rec_rev[it_pos-1] && rec_rev[it_pos-1] <= w.revision) || expiry_case(w, rawKey, rev)
+//@   requires@C07,C17 [deletes-only-dead-or-superseded-versions] (w.compact && is_rec_kr(it_pos-1, rawKey, rev) && rev != 0 && rev <= w.revision && dead(it_pos-1) && (lastkept(it_pos-1) >= 0 && rec_uk[lastkept(it_pos-1)] == rec_uk[it_pos-1] && rec_rev[lastkept(it_pos-1)] != 0 ==> skipped(w, rawKey) || is_enc(last_del, uk_of(lastkept(it_pos-1)), rec_rev[lastkept(it_pos-1)]))) || (w.compact && is_rec_kr(lastkept(it_pos-1), rawKey, rev) && rev != 0 && rec_uk[lastkept(it_pos-1)] == rec_uk[it_pos-1] && rec_rev[lastkept(it_pos-1)] < rec_rev[it_pos-1] && rec_rev[it_pos-1] <= w.revision) || expiry_case(w, rawKey, rev)
 //@   modifies inferred:(*worker).compactKey
-//@   ensures [at-most-one-delete] dels == old(dels) || dels == old(dels)+1
-//@   ensures [skipped-keys-are-left-alone] old(len(w.lastCompactFailedRawKey) > 0 && bytes_eq(w.lastCompactFailedRawKey, rawKey)) ==> dels == old(dels) && err == nil
+//@   ensures [one-delete-naming-the-key] !old(skipped(w, rawKey)) ==> dels == old(dels)+1 && last_del == key
+//@   ensures [skipped-keys-are-left-alone] old(skipped(w, rawKey)) ==> dels == old(dels) && err == nil && w.lastCompactFailedRawKey == old(w.lastCompactFailedRawKey) && last_del == old(last_del)
 //@   ensures [a-failed-delete-skips-the-rest-of-the-key] err != nil && !err_is(err, storage.ErrCASFailed) ==> w.lastCompactFailedRawKey == rawKey
 
 //@ func (*worker).compactCurrent(iter, rawKey, rev) (err)
@@ -231,7 +246,8 @@ package scanner
 // next record belongs to another key or lies above the read revision -- by sortedness exactly
 // "newest version <= R"), it is not the index record and not a deletion
 // (dead(i): record i's value is the deletion marker -- defined by the instances assumed in run's loop)
-//@ pred emitted(i, w) = rec_rev[i] != 0 && rec_rev[i] <= w.revision && !dead(i) && (i+1 >= rec_n || rec_uk[i+1] != rec_uk[i] || rec_rev[i+1] > w.revision)
+//@ pred emitted_at(i, R) = rec_rev[i] != 0 && rec_rev[i] <= R && !dead(i) && (i+1 >= rec_n || rec_uk[i+1] != rec_uk[i] || rec_rev[i+1] > R)
+//@ pred emitted(i, w) = emitted_at(i, w.revision)
 //@ pred same_slice(a, b) = a.obj == b.obj && a.off == b.off && len(a) == len(b)
 //@ pred uk_of(i) = rec_key[i][4:len(rec_key[i])-9]
 //@ pred is_rec(i, k, v, r) = r == rec_rev[i] && v == rec_val[i] && same_slice(k, uk_of(i))
@@ -241,9 +257,12 @@ package scanner
 //@   nosafety C08
 //@   requires [floor-checked] w.compact || !floor_set || floor <= w.revision
 //@   requires w != nil && w.store != nil && w.Coder != nil && w.metricCli != nil && receiver != nil
+//@   requires [ascending-interval] bytes_cmp(w.partition.Start, w.partition.End) <= 0
 //@   requires [events-prefix-is-the-events-dir] len(w.eventsPrefix) == 0 || bytes_eq(w.eventsPrefix, events_dir)
 //@   requires [expiry-only-while-compacting] !w.compact ==> w.timeoutRevision == 0
 //@   modifies inferred:(*worker).run
+//@   ensures@C03 [scanned-the-partition] err == nil ==> it_lo == w.partition.Start && it_hi == w.partition.End
+//@   ensures@C03 [output-stays-coupled] err == nil ==> coupled(receiver) && (typeis(receiver, "*scanner.commonResultReceiver") ==> out_limit == asptr(receiver, "*scanner.commonResultReceiver").limit)
 //@   ensures@C03 [unlimited-read-is-the-snapshot] !w.compact && err == nil && out_limit <= 0 ==> out_n == cnt(rec_n) && count == out_n && forall(i, 0 <= i && i < rec_n && emitted(i, w), is_rec(i, out_key[cnt(i)], out_val[cnt(i)], out_rev[cnt(i)]))
 //@   ensures@C03 [limited-read-is-a-prefix-of-the-snapshot] !w.compact && err == nil && out_limit > 0 ==> out_n <= out_limit && out_n <= cnt(rec_n) && (out_n < out_limit ==> out_n == cnt(rec_n)) && forall(i, 0 <= i && i < rec_n && emitted(i, w) && cnt(i) < out_n, is_rec(i, out_key[cnt(i)], out_val[cnt(i)], out_rev[cnt(i)]))
 // cnt(i): number of emitted records among the first i; lastvis(i): index of the last record among the
@@ -275,12 +294,13 @@ package scanner
 //@   loop 0 invariant@C03 [previous-is-the-last-visible-record] !w.compact ==> ite(lastvis(it_pos) < 0, prevRevision == 0, is_rec(lastvis(it_pos), prevUserKey, prevValue, prevRevision))
 //@   loop 0 invariant@C07 [previous-while-compacting] w.compact ==> ite(lastkept(it_pos) < 0, prevRevision == 0, is_rec(lastkept(it_pos), prevUserKey, prevValue, prevRevision)) && pair_hint(lastkept(it_pos), it_pos) && pair_hint(it_pos, lastkept(it_pos))
 //@   loop 0 invariant@C03 [emitted-so-far] !w.compact ==> out_n == cnt(ite(lastvis(it_pos) < 0, 0, lastvis(it_pos))) && count == out_n && cnt(it_pos) == cnt(lastvis(it_pos)+1)
+//@   loop 0 invariant@C03 [output-stays-coupled] coupled(receiver) && (typeis(receiver, "*scanner.commonResultReceiver") ==> out_limit == asptr(receiver, "*scanner.commonResultReceiver").limit)
 //@   loop 0 invariant@C03 [within-the-limit] !w.compact && out_limit > 0 ==> out_n <= out_limit
 //@   loop 0 invariant@C03 [content-so-far] !w.compact ==> forall(i, 0 <= i && i < lastvis(it_pos) && emitted(i, w), is_rec(i, out_key[cnt(i)], out_val[cnt(i)], out_rev[cnt(i)]))
 
 // what a worker needs before it scans (the preconditions of run), as one predicate so that the
 // links scan -> goroutine -> retry wrapper -> retry closure -> run each carry it
-//@ pred worker_ready(w, receiver) = w != nil && w.store != nil && w.Coder != nil && w.metricCli != nil && receiver != nil && (len(w.eventsPrefix) == 0 || bytes_eq(w.eventsPrefix, events_dir)) && (!w.compact ==> w.timeoutRevision == 0)
+//@ pred worker_ready(w, receiver) = w != nil && w.store != nil && w.Coder != nil && w.metricCli != nil && receiver != nil && bytes_cmp(w.partition.Start, w.partition.End) <= 0 && (len(w.eventsPrefix) == 0 || bytes_eq(w.eventsPrefix, events_dir)) && (!w.compact ==> w.timeoutRevision == 0)
 
 //@ func (*worker).runWithBackoffRetry(ctx, receiver) (count, err)
 //@   props C03 C07 C08
@@ -308,6 +328,7 @@ package scanner
 //@   requires [floor-checked] compact || !floor_set || floor <= revision
 //@   requires [scanner] wf_scanner(r) && store != nil && receiver != nil
 //@   requires [expiry-only-while-compacting] !compact ==> timeoutRevision == 0
+//@   requires [ascending-partitions] 0 <= idx && idx < len(partitions) && bytes_cmp(partitions[idx].Start, partitions[idx].End) <= 0
 
 //@ func (*scanner).scan(ctx, start, end, revision, compact, receiver) (count, err)
 //@   props C03 C07 C08
@@ -319,19 +340,30 @@ package scanner
 //@   ensures [read-leaves-floor] !compact ==> floor == old(floor) && floor_set == old(floor_set)
 //@   ensures [closed] !batch_open
 
+// a limited range read, end to end: the first min(limit, number of snapshot entries) entries of
+// the MVCC snapshot at the read revision of the records in [start, end), in key order
+//@ pred limited_snapshot(kvs, revision, limit) = len(kvs) <= limit && len(kvs) <= cnt(rec_n) && (len(kvs) < limit ==> len(kvs) == cnt(rec_n)) && forall(i, 0 <= i && i < rec_n && emitted_at(i, revision) && 0 <= cnt(i) && cnt(i) < len(kvs), kvs[cnt(i)] != nil && same_slice(kvs[cnt(i)].Key, uk_of(i)) && kvs[cnt(i)].Value == rec_val[i] && kvs[cnt(i)].Revision == rec_rev[i])
 //@ func (*scanner).rangeWithLimit(ctx, start, end, revision, limit) (kvs, err)
-//@   props C08
-//@   nosafety
+//@   props C03 C08
+//@   nosafety C08
 //@   requires wf_scanner(r) && !batch_open
+//@   requires@C03 [limited] limit > 0 && limit <= 0x1000000000000
+//@   requires@C03 [ascending-interval] bytes_cmp(start, end) <= 0
 //@   modifies inferred:(*scanner).rangeWithLimit ghost.bw_n ghost.bw_kind ghost.bw_key ghost.bw_val ghost.bw_ttl ghost.commits ghost.last_batch ghost.last_err ghost.batch_open ghost.floor ghost.floor_set
 //@   ensures [floor-unchanged] floor == old(floor) && floor_set == old(floor_set)
+//@   ensures@C03 [the-interval-asked-for] err == nil ==> it_lo == start && it_hi == end
+//@   ensures@C03 [limited-read-is-a-prefix-of-the-snapshot] err == nil ==> limited_snapshot(kvs, revision, limit)
+//@   ensures@C03 [refused-below-the-floor] err == nil ==> !floor_set || floor <= revision
 
 //@ func (*scanner).Range(ctx, start, end, revision, limit) (kvs, err)
-//@   props C08
-//@   nosafety
+//@   props C03 C08
+//@   nosafety C08
 //@   requires wf_scanner(r) && !batch_open
+//@   requires@C03 [limit-fits] limit <= 0x1000000000000
+//@   requires@C03 [ascending-interval] bytes_cmp(start, end) <= 0
 //@   modifies inferred:(*scanner).Range ghost.bw_n ghost.bw_kind ghost.bw_key ghost.bw_val ghost.bw_ttl ghost.commits ghost.last_batch ghost.last_err ghost.batch_open ghost.floor ghost.floor_set
 //@   ensures [floor-unchanged] floor == old(floor) && floor_set == old(floor_set)
+//@   ensures@C03 [limited-read-is-a-prefix-of-the-snapshot] err == nil && limit > 0 ==> it_lo == start && it_hi == end && limited_snapshot(kvs, revision, limit)
 
 //@ func (*scanner).Count(ctx, start, end, revision) (n, err)
 //@   props C08
